@@ -36,6 +36,11 @@ type GBatchSc struct {
 	Prep      string   `json:"prep"`
 	Items     []GItem  `json:"items"`
 	Decisions []string `json:"decisions"`
+	// Pre > 0: before the gated run, the SAME node object is run once, ungated, with batch concurrency Pre; then the
+	// concurrency is set to Conc (last setting wins, also across runs: no state may be carried over)
+	Pre int `json:"pre,omitempty"`
+	// Procs > 0: run with GOMAXPROCS(Procs) (the limit must be usable also when it exceeds the number of CPUs)
+	Procs int `json:"procs,omitempty"`
 }
 
 type GBatchObs struct {
@@ -165,6 +170,30 @@ func execGBatch(sc *GBatchSc, choose chooser) (GBatchObs, []string) {
 	b := &batchImpl{rt: rt, cfg: &cfg, attempts: map[[2]int]int{}, itemTok: map[int][]int{}, gate: g.gate}
 	node := e.buildBatchWith(b)
 	e.nodes[0] = node
+	if sc.Procs > 0 {
+		defer runtime.GOMAXPROCS(runtime.GOMAXPROCS(sc.Procs))
+	}
+	if sc.Pre > 0 {
+		// warm-up run on the same node: every exec returns at once (gate off); its trace and outcome are discarded
+		gateOn := false
+		real := b.gate
+		b.gate = func(i, k int) {
+			if gateOn {
+				real(i, k)
+			}
+		}
+		node.WithBatchConcurrency(sc.Pre)
+		e.runOnce(0)
+		node.WithBatchConcurrency(sc.Conc)
+		// fresh per-run bookkeeping for the gated run
+		b.mu.Lock()
+		b.attempts = map[[2]int]int{}
+		b.mu.Unlock()
+		rt.mu.Lock()
+		rt.visit = -1
+		rt.mu.Unlock()
+		gateOn = true
+	}
 
 	done := make(chan RunObs, 1)
 	ridCh := make(chan int, 1)
@@ -480,6 +509,12 @@ func genGBatch(r *rng, thorough bool, shard, shards int, jl *jobList) {
 		rr := newRng(r.next())
 		prep, items := gItems(t, n, budget, mask, r.chance(50), func(i int) bool { return rr.chance(50) }, r.pick([]string{"res", "any"}))
 		base := GBatchSc{N: n, Conc: c, Stop: r.chance(50), Budget: budget, Fb: fbk, ExecS: "res", Kind: r.pick([]string{"canceled", "deadline"}), Prep: prep, Items: items}
+		switch it % 5 {
+		case 1: // the node has been run before with a different concurrency
+			base.Pre = 1 + r.intn(6)
+		case 2: // fewer CPUs than workers
+			base.Procs = 1 + r.intn(2)
+		}
 		cancelAt := -1
 		if r.chance(50) {
 			cancelAt = r.intn(n + 2)
